@@ -24,5 +24,5 @@ def run(ctx):
     c16.r_options(ctx)
     root = common.solve_root(ctx.repo)
     na, nb = common.r_argbind(ctx, {root.name}, why=" (tolerance, regularisation, heuristic and verbosity reach the solve root under their own names)")
-    ctx.floor("name-matched arguments of the solve root", nb, 5)
+    ctx.floor("name-matched arguments of the solve root", nb, 3)
     ctx.floor("heuristic call sites", n, 3)
